@@ -12,7 +12,7 @@ class Inconclusive(Exception):
 
 
 class Obligation:
-    __slots__ = ("id", "kind", "guard", "claim", "pos", "fn", "assum_n", "status", "model", "solver", "time", "note", "expect")
+    __slots__ = ("id", "kind", "guard", "claim", "pos", "fn", "assum_n", "status", "model", "solver", "time", "note", "expect", "stack")
 
     def __init__(self, oid, kind, guard, claim, pos, fn, assum_n):
         self.id = oid
@@ -28,6 +28,7 @@ class Obligation:
         self.time = 0.0
         self.note = ""
         self.expect = "unsat"     # reach obligations expect 'sat'
+        self.stack = ()
 
 
 class Frame:
@@ -136,7 +137,7 @@ class Engine:
         g = self.guard
         if is_false(g) and kind != "reach":
             return
-        if self.panic_scopes and kind != "assert" and kind != "reach":
+        if self.panic_scopes and kind not in ("assert", "reach", "conv", "bound", "timerange"):
             # inside a Panics(...) scope: implicit/explicit panics are captured, not obligations
             self.panic_scopes[-1].guards.append(And(g, Not(claim)))
             if narrow:
@@ -152,6 +153,7 @@ class Engine:
         oid = base if k == 0 else "%s#%d" % (base, k)
         fn = self.callstack[-1] if self.callstack else ""
         ob = Obligation(oid, kind, g, claim, pos, fn, len(self.assumptions))
+        ob.stack = tuple(self.callstack)
         self.obligations.append(ob)
         if narrow and kind != "assert":
             # assert-then-assume: the path continues only where the check passed. Recorded as an
@@ -188,6 +190,141 @@ class Engine:
         # symbolic tokens live above 2^32 so that they never equal a named package error
         self.assume_global(z3.UGE(tok, bv(1 << 32)), "symbolic error token is not a package-level error")
         return Iface(((c, None, None), (Not(c), "$err", tok)))
+
+    # ------------------------------------------------------------ contextual simplification
+    def _flatten(self, c, out):
+        if z3.is_and(c):
+            for ch in c.children():
+                self._flatten(ch, out)
+        else:
+            out.append(c)
+
+    def factor_or(self, gs):
+        """Or(gs) with the conjuncts common to all disjuncts factored out (keeps guards And-shaped)"""
+        if len(gs) == 1:
+            return gs[0]
+        lists = []
+        for g in gs:
+            cs = []
+            self._flatten(g, cs)
+            lists.append(cs)
+        common = set(x.get_id() for x in lists[0])
+        for cs in lists[1:]:
+            common &= set(x.get_id() for x in cs)
+        if not common:
+            return Or(*gs)
+        keep = [x for x in lists[0] if x.get_id() in common]
+        rests = []
+        for cs in lists:
+            rests.append(And(*[x for x in cs if x.get_id() not in common]))
+        return And(*(keep + [Or(*rests)]))
+
+    def guard_facts(self):
+        g = self.guard
+        k = g.get_id()
+        cache = self.ghost.setdefault("_gfacts", {})
+        r = cache.get(k)
+        if r is None:
+            cs = []
+            self._flatten(g, cs)
+            r = (g, set(x.get_id() for x in cs), cs)
+            if len(cache) > 2000:
+                cache.clear()
+            cache[k] = r
+        return r[1]
+
+    def implied(self, c, facts):
+        cs = []
+        self._flatten(c, cs)
+        return all(x.get_id() in facts for x in cs)
+
+    def refuted(self, c, facts):
+        cs = []
+        self._flatten(c, cs)
+        for x in cs:
+            if z3.is_not(x):
+                if x.arg(0).get_id() in facts:
+                    return True
+            else:
+                # Not(x) among the facts
+                pass
+        return False
+
+    def ctx_scalar(self, t, facts, negfacts):
+        """resolve top-level if-then-else terms whose condition is decided by the current guard"""
+        n = 0
+        while z3.is_app_of(t, z3.Z3_OP_ITE) and n < 50:
+            c = t.arg(0)
+            if self.implied(c, facts):
+                t = t.arg(1)
+            elif c.get_id() in negfacts or self.refuted(c, facts):
+                t = t.arg(2)
+            else:
+                break
+            n += 1
+        return t
+
+    def ctx_value(self, v):
+        """contextual simplification of a loaded value under the current guard"""
+        g = self.guard
+        if is_true(g):
+            return v
+        facts = self.guard_facts()
+        key = ("_negfacts", g.get_id())
+        negfacts = self.ghost.get(key)
+        if negfacts is None:
+            cs = []
+            self._flatten(g, cs)
+            negfacts = set(x.arg(0).get_id() for x in cs if z3.is_not(x))
+            self.ghost[key] = negfacts
+            self.ghost.setdefault("_negkeep", []).append(g)
+        return self._ctx_value(v, facts, negfacts)
+
+    def _ctx_value(self, v, facts, negfacts):
+        if isinstance(v, z3.ExprRef):
+            return self.ctx_scalar(v, facts, negfacts)
+        tv = type(v)
+        if tv is Slice:
+            return Slice(self._ctx_ptr(v.base, facts, negfacts), self.ctx_scalar(v.off, facts, negfacts), self.ctx_scalar(v.len, facts, negfacts), self.ctx_scalar(v.cap, facts, negfacts))
+        if tv is Ptr:
+            return self._ctx_ptr(v, facts, negfacts)
+        if tv is Iface:
+            alts = []
+            for c, t, p in v.alts:
+                if self.implied(c, facts):
+                    return Iface(((TRUE, t, p),))
+                if c.get_id() in negfacts or self.refuted(c, facts):
+                    continue
+                alts.append((c, t, p))
+            return Iface(alts) if alts else v
+        if tv is SV:
+            return SV([self._ctx_value(x, facts, negfacts) for x in v.f])
+        if tv is TV:
+            if v.ns is not None:
+                return TV(ns=self.ctx_scalar(v.ns, facts, negfacts))
+            return TV(sec=self.ctx_scalar(v.sec, facts, negfacts), nsec=self.ctx_scalar(v.nsec, facts, negfacts))
+        if tv is Clo:
+            alts = []
+            for c, f, bd in v.alts:
+                if self.implied(c, facts):
+                    return Clo(((TRUE, f, bd),))
+                if c.get_id() in negfacts or self.refuted(c, facts):
+                    continue
+                alts.append((c, f, bd))
+            return Clo(alts) if alts else v
+        return v
+
+    def _ctx_ptr(self, p, facts, negfacts):
+        alts = []
+        for c, t in p.alts:
+            if is_true(c):
+                return p
+            if self.implied(c, facts):
+                return Ptr(((TRUE, t),))
+            if c.get_id() in negfacts or self.refuted(c, facts):
+                continue
+            alts.append((c, t))
+        return Ptr(alts) if alts else p
 
     # ------------------------------------------------------------ memory
     def alloc(self, typ, val=None, name=""):
@@ -300,7 +437,7 @@ class Engine:
             res = v if res is None else ite(c, v, res)
         if res is None:
             raise DeadPath()
-        return res
+        return self.ctx_value(res)
 
     def store(self, p, val, pos=""):
         if type(p) is not Ptr:
@@ -402,19 +539,14 @@ class Engine:
             return False
         if is_true(g) or not self.prune:
             return True
-        ps = self.prune_solver
-        if ps is None:
-            ps = self.prune_solver = z3.Solver()
-            ps.set("timeout", self.cfg.get("prune_timeout_ms", 400))
-            self.prune_n = 0
-        while self.prune_n < len(self.assumptions):
-            ps.add(self.assumptions[self.prune_n])
-            self.prune_n += 1
-        ps.push()
+        from . import solve as _solve
+        ps = z3.Solver()
+        ps.set("timeout", self.cfg.get("prune_timeout_ms", 400))
+        for a in _solve.relevant(self.assumptions, [g]):
+            ps.add(a)
         ps.add(g)
         t0 = _time.time()
         r = ps.check()
-        ps.pop()
         self.stats["prune_checks"] = self.stats.get("prune_checks", 0) + 1
         self.stats["prune_s"] = self.stats.get("prune_s", 0.0) + _time.time() - t0
         if r == z3.unknown:
@@ -470,7 +602,7 @@ class Engine:
         if not frame.rets:
             self.guard = FALSE
             return self.zero_results(fn)
-        rg = Or(*[g for g, v in frame.rets])
+        rg = self.factor_or([g for g, v in frame.rets if not is_false(g)]) if any(not is_false(g) for g, v in frame.rets) else FALSE
         res = frame.rets[0][1]
         for g, v in frame.rets[1:]:
             res = ite(g, v, res)
@@ -597,6 +729,8 @@ class Engine:
             if es is not None and es[1] == self.narrows and fn.block_loop.get(d) == fn.block_loop.get(b) and fn.postdominates(b, d):
                 # every path from the dominator reaches b and nothing narrowed in between
                 G = es[0]
+            else:
+                G = self.factor_or([e[0] for e in edges if not is_false(e[0])])
         self.stats["blocks"] += 1
         self.guard = G
         blk = fn.blocks[b]
@@ -672,7 +806,8 @@ class Engine:
             self.guard = g
             self.do_call(frame, dins, kind, target, args)
             # a deferred call that panics: narrow
-            g0 = And(g0, Or(Not(dg), self.guard))
+            if not (is_true(dg) or dg.eq(g0)) or not self.guard.eq(g):
+                g0 = And(g0, Or(Not(dg), self.guard))
         self.guard = g0
 
     # ---- values
@@ -794,8 +929,26 @@ class Engine:
                     return TRUE if r else FALSE
         raise Inconclusive("binop %s on %s" % (tok, xt.id))
 
+    def map_const_ite(self, x, f, isconst, depth=4):
+        """x is an if-then-else tree whose leaves are all constants: rebuild it with f applied to the leaves"""
+        if isconst(x):
+            return f(x)
+        if depth > 0 and z3.is_app_of(x, z3.Z3_OP_ITE):
+            a = self.map_const_ite(x.arg(1), f, isconst, depth - 1)
+            b = self.map_const_ite(x.arg(2), f, isconst, depth - 1)
+            if a is not None and b is not None:
+                return zif(x.arg(0), a, b)
+        return None
+
     def fp_mul(self, x, y):
         mode = self.cfg.get("fp_mul", "exact")
+        if mode != "exact":
+            # a small constant-leaf tree (e.g. float64(Sgn(d))) times y: distribute, each product is exact
+            for a, b in ((x, y), (y, x)):
+                if not self.is_fp_const(a) and z3.is_app_of(a, z3.Z3_OP_ITE):
+                    t = self.map_const_ite(a, lambda c: z3.fpMul(RNE, c, b), z3.is_fp_value)
+                    if t is not None:
+                        return t
         if mode == "exact" or self.is_fp_const(x) and self.is_fp_const(y):
             return z3.fpMul(RNE, x, y)
         if mode == "exact_const" and (self.is_fp_const(x) or self.is_fp_const(y)):
@@ -805,20 +958,30 @@ class Engine:
         r = f(x, y)
         if self.cfg.get("fp_axioms", True):
             big = z3.FPVal(1e150, F64)
-            zero = z3.FPVal(0.0, F64)
             one = z3.FPVal(1.0, F64)
-            ax, ay = z3.fpAbs(x), z3.fpAbs(y)
+            ax, ay, ar = z3.fpAbs(x), z3.fpAbs(y), z3.fpAbs(r)
+            nan_in = z3.Or(z3.fpIsNaN(x), z3.fpIsNaN(y), z3.And(z3.fpIsInf(x), z3.fpIsZero(y)), z3.And(z3.fpIsZero(x), z3.fpIsInf(y)))
+            G = self.assume_global
+            # sound facts about IEEE-754 multiplication (round to nearest even), valid for all operands
+            G(z3.fpIsNaN(r) == nan_in, "fpmul: NaN exactly for NaN operands and 0*inf")
+            G(z3.Implies(z3.Not(nan_in), z3.fpIsNegative(r) == z3.Xor(z3.fpIsNegative(x), z3.fpIsNegative(y))), "fpmul: sign")
+            G(z3.Implies(z3.Not(nan_in), z3.fpIsZero(r) == z3.Or(z3.fpIsZero(x), z3.fpIsZero(y), z3.And(z3.fpLT(ax, z3.FPVal(1e-150, F64)), z3.fpLT(ay, z3.FPVal(1e-150, F64)), z3.fpIsZero(r)))), "fpmul: zero iff a zero operand (or underflow of two tiny operands)")
+            G(z3.Implies(z3.And(z3.Not(nan_in), z3.Or(z3.fpIsInf(x), z3.fpIsInf(y))), z3.fpIsInf(r)), "fpmul: infinite operand")
             small = z3.And(z3.fpLEQ(ax, big), z3.fpLEQ(ay, big))
-            # sound facts about IEEE-754 multiplication (RNE)
-            self.assume_global(z3.Implies(small, z3.And(z3.Not(z3.fpIsNaN(r)), z3.Not(z3.fpIsInf(r)), z3.fpLEQ(z3.fpAbs(r), z3.FPVal(1e300, F64)))), "fpmul: finite for |operands| <= 1e150")
-            self.assume_global(z3.Implies(z3.And(small, z3.Or(z3.fpIsZero(x), z3.fpIsZero(y))), z3.fpIsZero(r)), "fpmul: zero operand")
-            self.assume_global(z3.Implies(z3.And(small, z3.fpGEQ(x, zero), z3.fpGEQ(y, zero)), z3.fpGEQ(r, zero)), "fpmul: sign")
-            self.assume_global(z3.Implies(z3.And(small, z3.fpLEQ(x, zero), z3.fpGEQ(y, zero)), z3.fpLEQ(r, zero)), "fpmul: sign")
-            self.assume_global(z3.Implies(z3.And(small, z3.fpGEQ(x, zero), z3.fpLEQ(y, zero)), z3.fpLEQ(r, zero)), "fpmul: sign")
-            self.assume_global(z3.Implies(z3.And(small, z3.fpLEQ(x, zero), z3.fpLEQ(y, zero)), z3.fpGEQ(r, zero)), "fpmul: sign")
-            # |x*y| <= |x| when |y| <= 1 (rounding is monotone and |x|*1 is exact), and symmetrically
-            self.assume_global(z3.Implies(z3.And(small, z3.fpLEQ(ay, one)), z3.fpLEQ(z3.fpAbs(r), ax)), "fpmul: |x*y| <= |x| for |y| <= 1")
-            self.assume_global(z3.Implies(z3.And(small, z3.fpLEQ(ax, one)), z3.fpLEQ(z3.fpAbs(r), ay)), "fpmul: |x*y| <= |y| for |x| <= 1")
+            G(z3.Implies(small, z3.And(z3.Not(z3.fpIsInf(r)), z3.fpLEQ(ar, z3.FPVal(1e300, F64)))), "fpmul: finite for |operands| <= 1e150")
+            # monotone in the magnitude: |x*y| <= |x| when |y| <= 1, >= |x| when |y| >= 1 (|x|*1 is exact, rounding is monotone)
+            G(z3.Implies(z3.And(z3.Not(nan_in), z3.fpLEQ(ay, one)), z3.fpLEQ(ar, ax)), "fpmul: |x*y| <= |x| for |y| <= 1")
+            G(z3.Implies(z3.And(z3.Not(nan_in), z3.fpLEQ(ax, one)), z3.fpLEQ(ar, ay)), "fpmul: |x*y| <= |y| for |x| <= 1")
+            G(z3.Implies(z3.And(z3.Not(nan_in), z3.fpGEQ(ay, one)), z3.fpGEQ(ar, ax)), "fpmul: |x*y| >= |x| for |y| >= 1")
+            G(z3.Implies(z3.And(z3.Not(nan_in), z3.fpGEQ(ax, one)), z3.fpGEQ(ar, ay)), "fpmul: |x*y| >= |y| for |x| >= 1")
+            # monotone in each operand against earlier applications with a shared operand
+            apps = self.ghost.setdefault("fpmul_apps", [])
+            for (x2, y2, r2) in apps:
+                if y2.eq(y):
+                    ok = z3.And(z3.Not(nan_in), z3.Not(z3.fpIsNaN(r2)), z3.fpGEQ(y, z3.FPVal(0.0, F64)))
+                    G(z3.Implies(z3.And(ok, z3.fpLEQ(x, x2)), z3.fpLEQ(r, r2)), "fpmul: monotone in x for y >= 0")
+                    G(z3.Implies(z3.And(ok, z3.fpLEQ(x2, x)), z3.fpLEQ(r2, r)), "fpmul: monotone in x for y >= 0")
+            apps.append((x, y, r))
         return r
 
     def fp_div(self, x, y):
@@ -953,6 +1116,9 @@ class Engine:
             srt = F64 if du.d["bits"] == 64 else F32
             if z3.is_bv_value(x):
                 return z3.FPVal(float(x.as_signed_long() if su.d["signed"] else x.as_long()), srt)
+            t = self.map_const_ite(x, lambda c: z3.FPVal(float(c.as_signed_long() if su.d["signed"] else c.as_long()), srt), z3.is_bv_value)
+            if t is not None:
+                return t
             if su.d["signed"]:
                 return z3.fpSignedToFP(RNE, x, srt)
             return z3.fpUnsignedToFP(RNE, x, srt)
@@ -1205,7 +1371,7 @@ class Engine:
         c = z3.simplify(cp)
         if not z3.is_bv_value(c):
             n = self.cfg.get("slice_cap_bound", 8)
-            self.oblige("unwind", z3.ULE(cp, bv(n)), oid="slicecap:%s" % name, narrow=True)
+            self.oblige("bound", z3.ULE(cp, bv(n)), oid="slicecap:%s" % name, narrow=True)
         else:
             n = c.as_long()
         z = self.zero(et)
@@ -1583,7 +1749,7 @@ class Engine:
         kc = self.conc(k)
         if kc is None:
             kc = self.cfg.get("append_bound", self.copy_bound)
-            self.oblige("unwind", z3.ULE(k, bv(kc)), oid="appendlen@%s" % pos, pos=pos)
+            self.oblige("bound", z3.ULE(k, bv(kc)), oid="appendlen@%s" % pos, pos=pos)
         if kc == 0:
             return s
         newlen = z3.simplify(s.len + k)
@@ -1625,7 +1791,7 @@ class Engine:
         else:
             if lc is None:
                 lc = self.cfg.get("slice_cap_bound", 8)
-                self.oblige("unwind", z3.ULE(s.len, bv(lc)), oid="appendbase@%s" % pos, pos=pos)
+                self.oblige("bound", z3.ULE(s.len, bv(lc)), oid="appendbase@%s" % pos, pos=pos)
             n = lc + kc
             z = self.zero(et)
             elems = []
@@ -1671,7 +1837,7 @@ class Engine:
         nc = self.conc(n)
         if nc is None:
             nc = self.copy_bound
-            self.oblige("unwind", z3.ULE(n, bv(nc)), oid="copylen@%s" % pos, pos=pos)
+            self.oblige("bound", z3.ULE(n, bv(nc)), oid="copylen@%s" % pos, pos=pos)
         # read all first (memmove semantics)
         vals = []
         g0 = self.guard
